@@ -85,6 +85,8 @@ def lt_txt(l):
 
 def ty_txt(t):
     k = t[0]
+    if k == "ref" and len(t) > 4 and t[4] == "Self":
+        return "&" + (lt_txt(t[1]) + " " if t[1] else "") + "Self"
     if k == "ref":       # ["ref", l, name, args]
         inner = t[2] + ("<" + ", ".join(lt_txt(a) for a in t[3]) + ">" if t[3] and all(a is not None for a in t[3]) else "")
         return "&" + (lt_txt(t[1]) + " " if t[1] else "") + inner
@@ -129,7 +131,7 @@ def implied_and_required(u, t, out):
     if k in ("ref", "optref"):
         for a in t[3]:
             if a and t[1]:
-                out.append((a, t[1], "ref"))
+                out.append((a, t[1], "self" if (k == "ref" and len(t) > 4 and t[4] == "Self") else "ref"))
         for (li, si) in def_bounds(u, t[2]):
             if t[3][li] and t[3][si]:
                 out.append((t[3][li], t[3][si], "def"))
@@ -173,7 +175,7 @@ def signature(draw, u):
     params = []
     np_ = draw(st.integers(0, 4))
     for i in range(np_):
-        k = draw(st.sampled_from(["ref0", "refA", "refA", "optrefA", "refAB", "slice", "optslice", "st1", "st2", "st2", "optst2", "outer", "wrap", "anonref", "anonst"]))
+        k = draw(st.sampled_from(["ref0", "refA", "refA", "optrefA", "refAB", "slice", "optslice", "st1", "st2", "st2", "optst2", "outer", "wrap", "anonref", "anonst", "refself"]))
         if k == "ref0":
             t = ["ref", draw(pick_in), "Op", []]
         elif k == "refA":
@@ -196,6 +198,11 @@ def signature(draw, u):
             t = ["struct", "Outer", args(2)]
         elif k == "wrap":
             t = ["struct", "Wrap", args(1)]
+        elif k == "refself":
+            if impl_lts and self_ty in ("OpA", "OpAB"):
+                t = ["ref", draw(pick), self_ty, list(impl_lts), "Self"]      # `&'l Self` = `&'l OpA<'x>`: implies 'x: 'l
+            else:
+                t = ["ref", draw(pick_in), "Op", []]
         elif k == "anonref":
             t = draw(st.sampled_from([["ref", None, "Op", []], ["slice", None, "[u8]"], ["slice", None, "str"]]))
         else:
@@ -279,7 +286,10 @@ def normalise(u, sig, spelled=True):
 
 
 def unspelled_self(u, sig):
-    """a method taking self whose Self type has definition-site bounds that the impl header does not restate"""
+    """a method taking self whose Self type has definition-site bounds that the impl header does not restate, or a `&'l Self`
+    parameter (its implied bound `'x: 'l` is left to rustc's inference): the tool may reject, but must not accept with fewer edges"""
+    if any(t[0] == "ref" and len(t) > 4 and t[4] == "Self" for _, t in sig["params"]):
+        return True
     return bool(sig["self"]) and bool(def_bounds(u, sig["self_ty"])) and not sig.get("self_spelled", True)
 
 
